@@ -50,10 +50,17 @@ class Resource(CustomModel):
 
         properties_list = []
         for field in self.Properties.model_fields_set:
-            properties_list.append(getattr(self.Properties, field))
+            properties_list.append(self._field_value(self.Properties, field))
 
         self.obtain_policy_documents(policy_documents=policy_documents, properties=properties_list)
         return policy_documents
+
+    @staticmethod
+    def _field_value(model, field: str) -> Any:
+        # A property of an unmodelled object may be named like an attribute of the model class (copy, json, schema...):
+        # its value is read from the stored properties, not looked up as an attribute
+        extra = model.model_extra or {}
+        return extra[field] if field in extra else getattr(model, field)
 
     def obtain_policy_documents(self, policy_documents: List, properties: List[Any]):
         """
@@ -75,7 +82,7 @@ class Resource(CustomModel):
             elif isinstance(property_type, Generic):
                 properties_list = []
                 for field in property_type.model_fields_set:
-                    properties_list.append(getattr(property_type, field))
+                    properties_list.append(self._field_value(property_type, field))
 
                 self.obtain_policy_documents(policy_documents=policy_documents, properties=properties_list)
 
